@@ -297,3 +297,9 @@ def wrapped(a=DA, b=DB):
 def wrapped_deny(a=DA, b=DB):
   rec('wrapped_deny', a, b)
   return (a, b)
+
+
+@gin.configurable(module='vw')
+def varkwo(a=DA, *rest, b=DB):
+  rec('varkwo', a, *rest, b=b)
+  return (a, rest, b)
